@@ -11,7 +11,10 @@ import (
 )
 
 func strJoin(joiner, subject rel.Value) (rel.Value, error) {
-	strs := subject.(rel.Set)
+	strs, is := subject.(rel.Set)
+	if !is {
+		return nil, fmt.Errorf("//str.join: subject not an array: %v", subject)
+	}
 	toJoin := make([]string, 0, strs.Count())
 	index := 0
 	for i := strs.ArrayEnumerator(); i.MoveNext(); index++ {
@@ -56,7 +59,11 @@ func stdSeqConcat(_ context.Context, seq rel.Value) (rel.Value, error) {
 		result := v0
 		for _, value := range values[1:] {
 			var err error
-			result, err = rel.Concatenate(result, value.(rel.Set))
+			set, is := value.(rel.Set)
+			if !is {
+				return nil, fmt.Errorf("//seq.concat: array item not a sequence: %v", value)
+			}
+			result, err = rel.Concatenate(result, set)
 			if err != nil {
 				return nil, err
 			}
